@@ -180,15 +180,16 @@ def multiplicity(position, sgname=None, sgno=None, cell_choice='standard'):
     lp = n.zeros((mysg.nsymop, 3))
 
     for i in range(mysg.nsymop):
-        lp[i, :] = n.dot(position, mysg.rot[i]) + mysg.trans[i]
+        lp[i, :] = n.dot(mysg.rot[i], position) + mysg.trans[i]
 
     lpu = n.array([lp[0, :]])
     multi = 1
 
     for i in range(1, mysg.nsymop):
         for j in range(multi):
-            t = lp[i]-lpu[j]
-            if n.sum(n.mod(t, 1)) < 0.00001:
+            t = n.mod(lp[i]-lpu[j], 1)
+            # distance to the nearest lattice translation (t may be just below 1)
+            if n.sum(n.minimum(t, 1-t)) < 0.00001:
                 break
             else:
                 if j == multi-1:
